@@ -590,8 +590,8 @@ SlurpOK(rw, u0, opts) ==
     /\ LET d == Denote(rw.term.func.args[1]) IN
        /\ DOMAIN d = {"slurp", "slurp_args", "orig", "rewrite"}
        /\ d.slurp = sp.name
-       /\ d.slurp_args = sp.args
-       /\ d.orig = sp.orig
+       /\ Len(d.slurp_args) = Len(sp.args) /\ \A i \in 1 .. Len(sp.args) : Norm(d.slurp_args[i]) = Norm(sp.args[i])
+       /\ Norm(d.orig) = Norm(sp.orig)
        /\ Norm(d.rewrite) = Norm(sp.rewrite)
 
 (* the option objects the real callers build (init.jq _cli_eval/_main, repl.jq _repl_eval) *)
